@@ -147,3 +147,8 @@ Definition frame_wf (k : kind) (f : frame) : Prop :=
 (* well-formed, decodable by the decoder in use, addressed to an accepted unit *)
 Definition valid_frame (k : kind) (dec : bytes -> dres) (c : cfg) (f : frame) : Prop :=
   frame_wf k f /\ is_msg (dec (f_pdu f)) = true /\ spec_accepts k c (f_uid f) = true.
+
+(* a frame of a mixed stream: well-formed; decodable if it is addressed to an accepted unit
+   (a frame for a unit that is not served only has to be skipped, whatever its PDU) *)
+Definition stream_frame (k : kind) (dec : bytes -> dres) (c : cfg) (f : frame) : Prop :=
+  frame_wf k f /\ (spec_accepts k c (f_uid f) = true -> is_msg (dec (f_pdu f)) = true).
